@@ -33,6 +33,8 @@ type Result struct {
 	Livelock    bool     // step horizon exceeded
 	Diverged    bool     // replay met a different situation than recorded: nondeterminism not owned
 	DivergeInfo string
+	Racy        int // evaluations of an awaited select with more than one ready case (Go picks at random)
+	RacyAt      int // number of prefix points honoured before a racy divergence (-1: none)
 	Panics      []string
 	Names       []string // thread names by id
 }
@@ -54,6 +56,9 @@ func (r *Result) Schedule() string {
 	last := -1
 	for _, p := range r.Points {
 		if len(p.Enabled) == 0 {
+			continue
+		}
+		if p.Choice >= len(p.Enabled) {
 			continue
 		}
 		t := p.Enabled[p.Choice]
@@ -120,7 +125,7 @@ func Run(prefix, expectN []int, cfg Config, body func(x *Exec)) *Result {
 	if cfg.Watchdog == 0 {
 		cfg.Watchdog = 30 * time.Second
 	}
-	x := &Exec{prefix: prefix, expectN: expectN, res: &Result{}, horizon: cfg.Horizon,
+	x := &Exec{prefix: prefix, expectN: expectN, res: &Result{RacyAt: -1}, horizon: cfg.Horizon,
 		doneCh: make(chan struct{}), adopted: make(chan struct{}, 16), progress: make(chan struct{}, 1)}
 	install(x)
 	defer uninstall()
@@ -280,7 +285,13 @@ func (x *Exec) pick(self *thread) *thread {
 	i := len(x.res.Points)
 	if i < len(x.prefix) {
 		p.Choice = x.prefix[i]
-		if p.Choice >= len(enabled) || (i < len(x.expectN) && x.expectN[i] != len(enabled)) {
+		if (p.Choice >= len(enabled) || (i < len(x.expectN) && x.expectN[i] != len(enabled))) && x.res.Racy > 0 {
+			// the run passed a select with several ready cases and Go chose differently this time:
+			// this is a legitimate execution of its own, continue it with default choices
+			x.res.RacyAt = i
+			x.prefix = x.prefix[:i]
+			p.Choice = 0
+		} else if p.Choice >= len(enabled) || (i < len(x.expectN) && x.expectN[i] != len(enabled)) {
 			x.res.Diverged = true
 			x.res.DivergeInfo = fmt.Sprintf("point %d: replay expects choice %d of %d, found %d enabled (%s)", i, p.Choice, exp(x.expectN, i), len(enabled), p.Kind)
 			x.res.Points = append(x.res.Points, p)
@@ -373,6 +384,12 @@ func hookAwait(kind string, obj interface{}, ready func() bool) {
 func hookYield(kind string, obj interface{}) {
 	if x := current; x != nil && !x.finished {
 		x.point(kind, nil, false)
+	}
+}
+
+func hookRacy(site string) {
+	if x := current; x != nil {
+		x.res.Racy++
 	}
 }
 
